@@ -311,4 +311,184 @@ def vt100Left (m : List Byte) (arg : BitVec 32) : Option (List Byte × Nat) :=
         (wr m (2 + e) 0x44#8).bind fun m =>
           (wr m (2 + e + 1) 0#8).bind fun m => some (m, 2 + e + 1)
 
+
+/-! # Extension round 3: the remaining integer renderers of dprint_func_impl.c,
+    the hexascii.h helpers and igris/util/ctype.h
+
+  The output of a printer is now also modelled as the stream the characters are
+  pushed onto: `out` holds the characters handed to `debug_putchar` so far, the
+  most recent first (`emit` pushes a string).  The loops are tail calls and the
+  memory they walk is an `Array` (constant-time `mem[i]?`; the entry points take
+  the usual byte list and convert it), so the driver runs the 65535-byte cases. -/
+
+/-- `debug_putchar` of every character of `s`, in order; `out` is newest-first -/
+def emit (out s : List Byte) : List Byte := s.reverse ++ out
+
+/-- `uint8_t *p = arg + n; while (n--) debug_printhex_uint8(*--p);` — `p` is the offset of
+    the pointer in `mem`; a load outside `mem` is a fault -/
+def hexNLoop (mem : Array Byte) : Nat → Nat → List Byte → Option (List Byte)
+  | 0, _, out => some out
+  | n + 1, p, out =>
+    if p = 0 then none
+    else match mem[p - 1]? with
+      | none => none
+      | some b => hexNLoop mem n (p - 1) (emit out (printhexU8 b))
+
+/-- `void debug_printhex_n(uint8_t *arg, int n)` for `n ≥ 0` (every caller passes a `sizeof`) -/
+def printhexN (mem : List Byte) (arg n : Nat) : Option (List Byte) :=
+  (hexNLoop mem.toArray n (arg + n) []).map List.reverse
+
+/-! the typed entry points: `debug_printhex_n((uint8_t *)&arg, sizeof(arg))` on the object
+    representation of the argument (little endian), `debug_printhex_uint8(arg)` for the chars -/
+def printhexChar (a : BitVec 8) : Option (List Byte) := some (printhexU8 a)
+def printhexShort (a : BitVec 16) : Option (List Byte) := printhexN (bytesLE a 2) 0 2
+def printhexInt (a : BitVec 32) : Option (List Byte) := printhexN (bytesLE a 4) 0 4
+def printhexLong (a : BitVec 64) : Option (List Byte) := printhexN (bytesLE a 8) 0 8
+
+/-- `while (size--) f(*_ptr++);` (debug_writehex / debug_writebin) -/
+def writeFwdLoop (f : Byte → List Byte) (mem : Array Byte) : Nat → Nat → List Byte → Option (List Byte)
+  | 0, _, out => some out
+  | n + 1, p, out =>
+    match mem[p]? with
+    | none => none
+    | some b => writeFwdLoop f mem n (p + 1) (emit out (f b))
+
+/-- `_ptr = ptr + size; while (size--) f(*--_ptr);` (debug_writehex_reversed / debug_writebin_reversed) -/
+def writeRevLoop (f : Byte → List Byte) (mem : Array Byte) : Nat → Nat → List Byte → Option (List Byte)
+  | 0, _, out => some out
+  | n + 1, p, out =>
+    if p = 0 then none
+    else match mem[p - 1]? with
+      | none => none
+      | some b => writeRevLoop f mem n (p - 1) (emit out (f b))
+
+/-- `void debug_writehex(const void *ptr, uint16_t size)`; `ptr` = `mem + p` -/
+def writehex (mem : List Byte) (p : Nat) (size : BitVec 16) : Option (List Byte) :=
+  (writeFwdLoop printhexU8 mem.toArray size.toNat p []).map List.reverse
+def writebin (mem : List Byte) (p : Nat) (size : BitVec 16) : Option (List Byte) :=
+  (writeFwdLoop printbinU8 mem.toArray size.toNat p []).map List.reverse
+def writehexReversed (mem : List Byte) (p : Nat) (size : BitVec 16) : Option (List Byte) :=
+  (writeRevLoop printhexU8 mem.toArray size.toNat (p + size.toNat) []).map List.reverse
+def writebinReversed (mem : List Byte) (p : Nat) (size : BitVec 16) : Option (List Byte) :=
+  (writeRevLoop printbinU8 mem.toArray size.toNat (p + size.toNat) []).map List.reverse
+
+/-- `void debug_printhex_ptr(const void *v) { debug_writehex_reversed(&v, sizeof(uintptr_t)); }`
+    (LP64: 8 bytes, the object representation of the pointer) -/
+def printhexPtr (v : BitVec 64) : Option (List Byte) := writehexReversed (bytesLE v 8) 0 8#16
+
+/-! ### igris/util/ctype.h: `int` argument; a `char` argument arrives sign-extended -/
+def isdigitI (c : Int) : Bool := 48 ≤ c && c ≤ 57
+def isxdigitHelperI (c : Int) : Bool := (97 ≤ c && c ≤ 102) || (65 ≤ c && c ≤ 70)
+def isxdigitI (c : Int) : Bool := isdigitI c || isxdigitHelperI c
+def isblankI (c : Int) : Bool := c == 32 || c == 9
+def isspaceI (c : Int) : Bool := c == 32 || c == 9 || c == 13 || c == 10 || c == 12 || c == 11
+def isupperI (c : Int) : Bool := 65 ≤ c && c ≤ 90
+def islowerI (c : Int) : Bool := 97 ≤ c && c ≤ 122
+def isalphaI (c : Int) : Bool := (97 ≤ c && c ≤ 122) || (65 ≤ c && c ≤ 90)
+def isalnumI (c : Int) : Bool := isalphaI c || isdigitI c
+def isprintI (c : Int) : Bool := isalphaI c || isdigitI c || (32 ≤ c && c ≤ 126)
+def toupperI (c : Int) : Int := if islowerI c then c + (65 - 97) else c
+def tolowerI (c : Int) : Int := if isupperI c then c + (97 - 65) else c
+
+/-- the ASCII column of one row of debug_print_dump:
+    `for (j = i - 7; j <= i; j++) if (j >= len) ' ' else if (igris_isprint(mem[j])) mem[j] else '.'`
+    (`cnt` = how many `j` are left) -/
+def dumpAscii (mem : Array Byte) (len : Nat) : Nat → Nat → List Byte → Option (List Byte)
+  | 0, _, out => some out
+  | cnt + 1, j, out =>
+    if j ≥ len then dumpAscii mem len cnt (j + 1) (emit out [0x20#8])
+    else match mem[j]? with
+      | none => none
+      | some b => dumpAscii mem len cnt (j + 1) (emit out [if isprintI b.toInt then b else 0x2E#8])
+
+/-- the body of `for (unsigned i = 0; i < len + pad; i++)`, `left` = iterations left -/
+def dumpLoop (addr : BitVec 64) (mem : Array Byte) (len : Nat) : Nat → Nat → List Byte → Option (List Byte)
+  | 0, _, out => some out
+  | left + 1, i, out =>
+    -- if (i % 8 == 0) { debug_write("0x", 2); debug_printhex_ptr(i + (char *)mem); debug_putchar(':'); }
+    (if i % 8 = 0 then
+        (printhexPtr (addr + BitVec.ofNat 64 i)).map fun s => emit (emit (emit out [0x30#8, 0x78#8]) s) [0x3A#8]
+      else some out).bind fun out =>
+    -- if (i < len) { debug_printhex_uint8(mem[i]); debug_putchar(' '); } else debug_print("   ");
+    (if i < len then (mem[i]?).map fun b => emit (emit out (printhexU8 b)) [0x20#8]
+      else some (emit out [0x20#8, 0x20#8, 0x20#8])).bind fun out =>
+    -- if (i % 8 == 7) { ASCII column; debug_print_newline(); }
+    (if i % 8 = 7 then (dumpAscii mem len 8 (i - 7) out).map fun out => emit out [0x0D#8, 0x0A#8]
+      else some out).bind fun out =>
+    dumpLoop addr mem len left (i + 1) out
+
+/-- `void debug_print_dump(const void *mem, uint16_t len)`; `addr` is the numeric value of `mem`.
+    `len + ((len % 8) ? (8 - len % 8) : 0)` is computed in `int`: at most 65542, no wrap. -/
+def printDump (addr : BitVec 64) (mem : List Byte) (len : BitVec 16) : Option (List Byte) :=
+  let n := len.toNat
+  (dumpLoop addr mem.toArray n (n + (if n % 8 ≠ 0 then 8 - n % 8 else 0)) 0 []).map List.reverse
+
+/-! ### the decimal entry points at their C types (dprint_func_impl.c:389-447):
+    every signed one converts to `long long` (sign extension), every unsigned one to
+    `long long` and on to `unsigned long long` (zero extension: the value is non-negative) -/
+def printdecU8 (x : BitVec 8) := printdecU64 (x.zeroExtend 64)
+def printdecU16 (x : BitVec 16) := printdecU64 (x.zeroExtend 64)
+def printdecU32 (x : BitVec 32) := printdecU64 (x.zeroExtend 64)
+def printdecULL (x : BitVec 64) := printdecU64 x
+def printdecUChar (x : BitVec 8) := printdecULL (x.zeroExtend 64)
+def printdecUShort (x : BitVec 16) := printdecULL (x.zeroExtend 64)
+def printdecUInt (x : BitVec 32) := printdecULL (x.zeroExtend 64)
+def printdecULong (x : BitVec 64) := printdecULL x
+def printdecSChar (x : BitVec 8) := printdecSLL (x.signExtend 64)
+def printdecSShort (x : BitVec 16) := printdecSLL (x.signExtend 64)
+def printdecSInt (x : BitVec 32) := printdecSLL (x.signExtend 64)
+def printdecSLong (x : BitVec 64) := printdecSLL x
+
+/-! ### igris/util/hexascii.h -/
+
+/-- `(char)(n < 10 ? '0' + n : 'A' - 10 + n)` (`int` arithmetic, narrowed to `char`) -/
+def half2hex (n : Byte) : Byte := if n.toNat < 10 then byteOfNat (48 + n.toNat) else byteOfNat (65 - 10 + n.toNat)
+
+/-- `(uint8_t)((hex2half(hi) << 4) + hex2half(lo))` -/
+def hex2byte (hi lo : Byte) : Byte := byteOfNat (((hex2half hi).toNat <<< 4) + (hex2half lo).toNat)
+
+def hiHalf (b : Byte) : Byte := (b >>> 4) &&& 0x0F#8
+def loHalf (b : Byte) : Byte := b &&& 0x0F#8
+
+/-- `*hex++ = half2hex(HIHALF(in)); *hex++ = half2hex(LOHALF(in));` -/
+def uint8ToHex (b : Byte) : List Byte := [half2hex (hiHalf b), half2hex (loHalf b)]
+
+/-- `uint16/32/64_to_hex`: the bytes of the object from the most significant one
+    (`UINTnn_H..(in)` = the highest address on this little-endian platform) down; `k` bytes -/
+def uintToHex {w : Nat} (a : BitVec w) (k : Nat) : List Byte := (bytesLE a k).reverse.flatMap uint8ToHex
+
+/-- value of an object whose bytes in memory order are `bs` (little endian) -/
+def ofBytesLE : List Byte → Nat
+  | [] => 0
+  | b :: bs => b.toNat + 256 * ofBytesLE bs
+
+/-- pairs of characters → bytes, first pair first -/
+def hexPairs : Nat → List Byte → Option (List Byte)
+  | 0, _ => some []
+  | k + 1, hi :: lo :: rest => (hexPairs k rest).map (hex2byte hi lo :: ·)
+  | _ + 1, _ => none
+
+/-- `hex_to_uint8/16/32/64(const char *hex)`: reads `2k` characters; the first pair is the
+    most significant byte (stored at the highest address); `none` = read outside the object -/
+def hexToUint (w k : Nat) (hex : List Byte) : Option (BitVec w) :=
+  (hexPairs k hex).map fun bs => BitVec.ofNat w (ofBytesLE bs.reverse)
+
+
+/-! ### the rest of dprint_func_impl.c that carries numbers: the `debug_asmlink_*` self-test
+    routines (hex renderers with a `':'` after every argument), `dprptr` / `dprptrln`, and
+    `debug_print(NULL)` -/
+def asmlinkArgs8 (vs : List (BitVec 8)) : List Byte := vs.flatMap fun a => printhexU8 a ++ [0x3A#8]
+def asmlinkArgs16 (vs : List (BitVec 16)) : List Byte := vs.flatMap fun a => printhexU16 a ++ [0x3A#8]
+def asmlinkArgs32 (vs : List (BitVec 32)) : List Byte := vs.flatMap fun a => printhexU32 a ++ [0x3A#8]
+def asmlinkRet8 : BitVec 8 := 0xFE#8
+def asmlinkRet16 : BitVec 16 := 0xFEDC#16
+def asmlinkRet32 : BitVec 32 := 0xFEDCBA98#32
+def asmlinkRet64 : BitVec 64 := 0xFEDCBA9876543210#64
+/-- `debug_asmlink_test`: A B C D E 1 2 3 4 5 -/
+def asmlinkTest : List Byte := [0x41#8, 0x42#8, 0x43#8, 0x44#8, 0x45#8, 0x31#8, 0x32#8, 0x33#8, 0x34#8, 0x35#8]
+def dprptr (v : BitVec 64) : Option (List Byte) := printhexPtr v
+def dprptrln (v : BitVec 64) : Option (List Byte) := (printhexPtr v).map (· ++ [0x0D#8, 0x0A#8])
+/-- `debug_print((const char *)0)` -/
+def debugPrintNull : List Byte := [0x4E#8, 0x55#8, 0x4C#8, 0x4C#8]
+
 end Igris.C07
